@@ -7,7 +7,7 @@ reg = {}
 lp = os.path.join(ROOT, "build", "seeded_regress.log")
 if os.path.exists(lp):
     for l in open(lp):
-        m = re.match(r"(\S+): (DETECTED \(.*?\)|MISSED)", l)
+        m = re.match(r"(\S+): (DETECTED \(.*?\)|MISSED|FLAKY.*)", l)
         if m:
             reg[m.group(1)] = m.group(2)
 rows = []
